@@ -235,7 +235,7 @@ def jobs(tier):
     js += [(unit_o2e, ("area", k)) for k in D.all_area_keys()]
     js += [(unit_o2e, ("frame", "Command")), (unit_o2e, ("frame", "Response"))]
     # events -> object: trie insertion by the step rule, conversion one level per concrete type
-    js += [(unit_e2d_steps, ()), (unit_to_obj_dispatch, ()), (unit_d2o_partial, ())]
+    js += [(unit_e2d_steps, ()), (unit_to_obj_dispatch, ()), (unit_d2o_partial, ()), (unit_canonical, ())]
     # decoder and events->object both synthesize the encrypted parameter class: they agree only through the memo (C12/MEMO)
     from checks import c12
     js += [(c12.unit_memo, ())]
@@ -489,6 +489,105 @@ def unit_d2o_partial():
     obj, calls, exc = run(Command, dict(cmd), None)
     ok = exc is None and obj is not None and obj.authSize is None and obj.authorizationArea is None and len(calls) == 5
     ob("command-without-sessions", ok, f"raised {exc!r}" if exc else f"{len(calls)} conversions")
+    return u
+
+
+def unit_canonical():
+    """Canonical / Generator facade (common/canonical.py), evaluated with a recording front-end: for a bytes input the events
+    are exactly what the front-end's marshal() yields for (tpm_type, the bytes, root_path=path, command_code, abort_on_error) and
+    the object is what it returns; for an object input the object is the input and the events are obj_to_events(input, path);
+    lazy / eager construction and repeated access give the same lists without decoding twice; anything else is refused.
+    (observation points of C11 are .events / .object; `iter(Canonical(...))` raises TypeError on the pinned tree because __iter__
+    returns a list - outside every listed property, not claimed and not reported)"""
+    C = mod("tpmstream.common.canonical")
+    from tpmstream.io.binary import Binary
+    from tpmstream.spec.commands import Command
+    from tpmstream.spec.structures.structures import TPMS_PCR_SELECTION
+
+    u = UnitResult("C11/CANONICAL")
+    u.functions = ["tpmstream.common.canonical:Canonical.__init__", "tpmstream.common.canonical:Canonical.events", "tpmstream.common.canonical:Canonical.object", "tpmstream.common.canonical:Generator.__iter__"]
+
+    def ob(name, ok, detail=""):
+        u.obligations.append({"name": f"C11/CANONICAL/{name}", "kind": "post", "site": "canonical.py", "status": "proved" if ok else "refuted", "backend": "evaluation", "seconds": 0, "model": None, "detail": str(detail)[:300]})
+
+    # Generator: yields in order, .value = the generator's return value
+    def g3():
+        a = yield "e1"
+        b = yield "e2"
+        return ("ret", a, b)
+    G = C.Generator(g3())
+    ys = list(G)
+    ob("generator/yields-in-order-and-keeps-the-return-value", ys == ["e1", "e2"] and G.value == ("ret", None, None), f"{ys} {getattr(G, 'value', None)!r}")
+
+    E1, E2, OBJ = object(), object(), object()
+    for lazy in (True, False):
+        for abort in (True, False):
+            for cc in (None, object()):
+                for path in (None, object()):
+                    calls = []
+
+                    class FrontEnd:
+                        @staticmethod
+                        def marshal(**kw):
+                            calls.append(kw)
+
+                            def gen():
+                                yield E1
+                                yield E2
+                                return OBJ
+                            return gen()
+
+                    T = object()
+                    data = b"\x80\x01"
+                    tag = f"bytes/lazy={lazy}/abort={abort}/cc={'given' if cc else 'none'}/path={'given' if path else 'none'}"
+                    try:
+                        c = C.Canonical(data, format_in=FrontEnd, tpm_type=T, path=path, command_code=cc, lazy=lazy, abort_on_error=abort)
+                        n_at_construction = len(calls)
+                        ev1 = list(c.events)
+                        o1 = c.object
+                        ev2 = list(c.events)
+                        o2 = c.object
+                    except Exception as e:  # noqa
+                        ob(tag + "/no-error", False, repr(e))
+                        continue
+                    want_kw = {"tpm_type": T, "buffer": data, "root_path": path, "command_code": cc, "abort_on_error": abort}
+                    ok = len(calls) == 1 and set(calls[0]) == set(want_kw) and all(calls[0][k] is v for k, v in want_kw.items())
+                    ob(tag + "/decodes-once-with-the-callers-arguments", ok, f"{len(calls)} call(s): {[sorted(k) for k in calls]}")
+                    ob(tag + "/events-are-what-the-decoder-yields", ev1 == [E1, E2] and ev2 == [E1, E2], f"{len(ev1)} {len(ev2)}")
+                    ob(tag + "/object-is-what-the-decoder-returns", o1 is OBJ and o2 is OBJ, repr(o1)[:60])
+    # object -> events
+    real = Command if False else None
+    objs = [TPMS_PCR_SELECTION(hash=None, sizeofSelect=None, pcrSelect=None)]
+    seen = []
+    saved = C.obj_to_events
+    try:
+        def fake_o2e(obj, path=None):
+            seen.append((obj, path))
+            yield E1
+            yield E2
+        C.obj_to_events = fake_o2e
+        for path in (None, object()):
+            for lazy in (True, False):
+                seen.clear()
+                o = objs[0]
+                try:
+                    c = C.Canonical(o, path=path, lazy=lazy)
+                    ev = list(c.events)
+                    ev_again = list(c.events)
+                    ok = c.object is o and ev == [E1, E2] and ev_again == [E1, E2] and len(seen) == 1 and seen[0][0] is o and seen[0][1] is path
+                    ob(f"object/lazy={lazy}/path={'given' if path else 'none'}/object-kept-and-events-from-obj_to_events-with-the-path", ok, f"{len(seen)} call(s), {len(ev)} events")
+                except Exception as e:  # noqa
+                    ob(f"object/lazy={lazy}/path={'given' if path else 'none'}/no-error", False, repr(e))
+    finally:
+        C.obj_to_events = saved
+    for bad in ("8001", 17, None, [0x80, 0x01], bytearray(b"\x80")):
+        try:
+            C.Canonical(bad, format_in=None)
+            ob(f"other/{type(bad).__name__}-input-is-refused", False, "accepted")
+        except ValueError:
+            ob(f"other/{type(bad).__name__}-input-is-refused", True)
+        except Exception as e:  # noqa
+            ob(f"other/{type(bad).__name__}-input-is-refused", False, repr(e))
     return u
 
 
